@@ -172,3 +172,11 @@ Definition explain_glyph kd D global gl seqs ends frag tuples insts bv srcs :=
   let v := judge kd D global gl seqs ends frag tuples insts bv srcs in
   let m := glyph_model (model_new global) gl in
   (v, m_locs m, glyph_deltas m (seqs_for m (combine gl (map (map zp) seqs)))).
+
+(* ---- kept as a composite or decomposed: the model's (positional) decision against the glyf table ------ *)
+Definition mk_comps (srcs : list (list (N * (Q * Q * Q * Q)))) : list (list comp) :=
+  map (map (fun c => mkComp (fst c) (snd c) pzero)) srcs.
+
+Definition check_kept (observed_composite has_outline : bool) (srcs : list (list (N * (Q * Q * Q * Q)))) : bool :=
+  Bool.eqb observed_composite (kept_composite has_outline (mk_comps srcs)).
+
